@@ -44,6 +44,8 @@ def check_supervised_premises(chk, rep, repo):
         tmp.ob("SCAN-analysis", "SupervisedOPF.predict", "C03 rule set", False, f"could not be evaluated: {exc}")
     n = 0
     for o in tmp.obligations:
+        if o.rule.endswith("SCAN-orientation"):
+            continue  # C04 quantifies over symmetric dissimilarities only: d(t, x) = d(x, t)
         if any(o.rule.startswith(p) or (":" in o.rule and o.rule.split(":", 1)[1].startswith(p)) for p in SUP_RULES):
             n += 1
             chk.ob("SUP:" + o.rule, o.function, o.construct, o.ok, o.detail, o.file, o.line)
@@ -55,7 +57,8 @@ def check_metric_purity(rep, repo):
     in predict: no metric (or its decorator) may write through its arguments, which are views of the stored
     training features."""
     from ..effects import Effects
-    eff = Effects(repo)
+    from ..common import get_effects
+    eff = get_effects(repo)
     fns = list(eff.registry_functions()) + [f for f in eff.funcs.values()
                                               if ".<locals>." in f.name and f.module == "opfython.utils.decorator"]
     n = 0
